@@ -370,3 +370,61 @@ Theorem C11_unguarded_renderer_leaks :
                             (fun _ s => imgs_closed s))) render_images = true.
 Proof. exact unguarded_renderer_leaks. Qed.
 Print Assumptions C11_unguarded_renderer_leaks.
+
+(* ---------------------------------------------------------------------------------------- *)
+(** PART 1c (round 7, proofs/ImgIterReentProofs.v): life-cycle operations that arrive WHILE a
+    [next()] of the same iterator is executing (another thread, a signal handler, a re-entrant
+    call from the renderer).  model/ImgIterReent.v: the state carries [att] (the attributes
+    _animator / _img are still set), [close()] is a parameter [closef executing state]; the code's
+    is [close_code] ((1) generator.close() raises ValueError while the generator executes, before
+    anything is done).  [RNextCD m]: a next() during which m close() calls arrive.  [rtrace] lists
+    per operation what [trace] lists plus the number of concurrent calls refused; [srtrace] is the
+    specification (model/ImgIterSpec.v on the sequential erasure, every concurrent call on a live
+    iterator refused). *)
+From TI Require Import model.ImgIterReent proofs.ImgIterReentProofs.
+
+(** a close() that arrives while the generator of a live iterator executes is refused and changes
+    nothing *)
+Theorem C11_close_during_next_is_refused :
+  forall (Str Size : Type) (r : rst Str Size), att r = true -> close_code true r = (r, true).
+Proof. exact close_during_refused. Qed.
+Print Assumptions C11_close_during_next_is_refused.
+
+(** for EVERY history of next / seek / close / drop / size changes and next() calls with any number
+    of concurrent close() calls: the caller sees the specification's trace of the sequential
+    erasure (outcomes, frames, image.tell(), loop_no, image still open), and every concurrent
+    call on a live iterator is refused *)
+Theorem C11_reent_refines_spec :
+  forall (Str Size : Type) (fmt_frame : nat -> Size -> res Str) (hash : Size -> Z) (N : nat)
+         cached repeat pos0 z0 (ops : list (rop Size)),
+    renderer_ok fmt_frame N -> repeat <> 0 ->
+    (cached = true -> hash_separates hash (sizes_of z0 (map (@erase Size) ops))) ->
+    rtrace fmt_frame hash N cached (@close_code Str Size) (rinit Str repeat pos0 z0) ops
+    = srtrace fmt_frame N (sinit repeat pos0 z0) ops.
+Proof. exact reent_refines_spec. Qed.
+Print Assumptions C11_reent_refines_spec.
+
+(** open/close balance under concurrency: after ANY such history — whatever was refused before —
+    the next close() / deletion hands the iterator's image to _close_image *)
+Theorem C11_reent_release :
+  forall (Str Size : Type) (fmt_frame : nat -> Size -> res Str) (hash : Size -> Z) (N : nat)
+         cached repeat pos0 z0 (ops : list (rop Size)) o,
+    renderer_ok fmt_frame N -> repeat <> 0 ->
+    (cached = true -> hash_separates hash (sizes_of z0 (map (@erase Size) ops))) ->
+    o = Close \/ o = Drop ->
+    let r := rrun fmt_frame hash N cached (@close_code Str Size) (rinit Str repeat pos0 z0)
+                  (ops ++ [RPlain o]) in
+    img_open (base r) = false /\ att r = false.
+Proof. exact reent_release. Qed.
+Print Assumptions C11_reent_release.
+
+(** the excluded design — close() detaches _animator / _img BEFORE releasing them — is
+    expressible in the same model and refuted: one refused close() and the image is never closed,
+    whatever clean-up follows *)
+Theorem C11_detach_before_release_refuted :
+  exists ops : list (rop nat),
+    let r := rrun ex_fmt Z.of_nat 3 false (@close_detach_first nat nat) (rinit nat 1 0 5%nat)
+                  (ops ++ [RPlain Close; RPlain Drop]) in
+    img_open (base r) = true.
+Proof. exact detach_first_refuted. Qed.
+Print Assumptions C11_detach_before_release_refuted.
